@@ -16,6 +16,7 @@ import (
 	"encoding/base64"
 	"encoding/xml"
 	"errors"
+	"fmt"
 	"io"
 	"strconv"
 	"sync"
@@ -360,8 +361,20 @@ func open(ctx context.Context, h *Handler, acked bool, s *xmpp.Session, start st
 	// Register the stream before asking for it: the responder may start sending
 	// data as soon as it has accepted, and those packets can be handled before
 	// this goroutine gets to run again after the reply.
+	// There is one stream per session ID on a handler: asking for another one
+	// under the ID of a stream that is live would take that stream's place in
+	// the table (and, when the responder refuses, remove it).
 	conn := newConn(h, s, iq, false, MaxBufferSize)
-	h.addStream(sid, conn)
+	h.mu.Lock()
+	if _, inUse := h.streams[sid]; inUse {
+		h.mu.Unlock()
+		return nil, fmt.Errorf("ibb: session ID %q is already in use", sid)
+	}
+	if h.streams == nil {
+		h.streams = make(map[string]*Conn)
+	}
+	h.streams[sid] = conn
+	h.mu.Unlock()
 
 	// The stream only exists if the responder accepted it: an error reply
 	// (no listener, unsupported block size, …) is returned as a stanza.Error.
